@@ -33,7 +33,8 @@ TRUSTED = [
     "a datetime column named in the timezones is localised, masked index -> int64); pandas itself is not modelled - "
     "tied to the real code by the realise correspondence on every column of every case",
     "Python `in` on str = `contains` on the UTF-8 bytes (ASCII needles)",
-    "statistics removed from a footer are removed on the opened handle (pf.fmd), as a reader of such a file would see it",
+    "footers without Statistics / without null_count are produced by rewriting the footer of a written file on disk (same steps as "
+    "writer.update_file_custom_metadata); pandas metadata is removed with the public update_file_custom_metadata",
 ]
 
 I_NO_NAME = re.compile(r"__index_level_\d+__")
@@ -80,7 +81,35 @@ def gen_written(rng):
         part = [cs["name"]]
         o["file_scheme"] = "hive"
     o["partition_on"] = part
-    return {"source": "written", "spec": spec, "wopts": o}
+    extra = []
+    if rng.random() < 0.3 and n > 0:
+        for j in range(rng.randint(1, 2)):
+            k = rng.choice(["oint", "obool", "oint"])
+            mode = rng.choice(["none", "some", "some", "all"])
+            vals = []
+            for _ in range(n):
+                v = rng.randint(-2**40, 2**40) if k == "oint" else (rng.random() < 0.5)
+                vals.append(None if (mode == "all" or (mode == "some" and rng.random() < 0.3)) else v)
+            extra.append({"name": "x%d_%s" % (j, k), "kind": k, "v": vals})
+    # has_nulls is the caller's declaration: a column that holds missing values must be declared (a REQUIRED categorical
+    # column with missing cells is written with code -1 and cannot be read back as plain values - outside the contract)
+    need = [c["name"] for c in spec["cols"] if c.get("nulls", "none") != "none" and c["kind"] not in F.NO_NULL_KINDS]
+    need += [x["name"] for x in extra if None in x["v"]]
+    if spec.get("index") and spec["index"].get("nulls", "none") != "none":
+        need.append(spec["index"]["name"])
+    hn = o["has_nulls"]
+    if (hn is False or hn == "infer") and need:
+        o["has_nulls"] = True
+    elif isinstance(hn, list):
+        o["has_nulls"] = sorted(set(hn) | set(need))
+    case = {"source": "written", "spec": spec, "wopts": o, "extra": extra}
+    # the pandas metadata removed from the footer ON DISK (public API update_file_custom_metadata): the file as a
+    # reader without that key sees it - the null-evidence path of _dtypes
+    case["nomd"] = bool(o["file_scheme"] == "simple" and rng.random() < 0.3)
+    if o["file_scheme"] == "simple" and n > 0 and rng.random() < 0.25:
+        ks = sorted(rng.sample(range(6), rng.randint(1, 6)))     # row-group numbers (those beyond the file's are ignored)
+        case["strip"] = {"mode": rng.choice(["stats", "null_count", "null_count"]), "rgs": ks}
+    return case
 
 
 def build_written(case, root):
@@ -96,6 +125,15 @@ def build_written(case, root):
         elif str(s.dtype) in ("object", "str", "string"):
             vals = sorted(set(s.tolist()))[:3] or ["a"]
             df[c] = [vals[i % len(vals)] for i in range(len(s))]
+    import pandas as pd
+    oe = RT.object_encoding_for(spec, o)
+    for x in case.get("extra") or []:
+        df[x["name"]] = pd.Series(x["v"], dtype=object, index=df.index)
+        if not isinstance(oe, dict):
+            oe = {c["name"]: "infer" for c in spec["cols"]}
+            if spec.get("index"):
+                oe[spec["index"]["name"]] = "infer"
+        oe[x["name"]] = "int" if x["kind"] == "oint" else "bool"
     path = os.path.join(root, "ds" if o["file_scheme"] != "simple" else "f.parquet")
     if os.path.isdir(path):
         shutil.rmtree(path)
@@ -107,7 +145,7 @@ def build_written(case, root):
             writer.MAX_PAGE_SIZE = o["page_size"]
         writer.DATAPAGE_VERSION = o["dpv"]
         kw = dict(compression=o["compression"], has_nulls=o["has_nulls"], stats=o["stats"], times=o["times"],
-                  object_encoding=RT.object_encoding_for(spec, o), file_scheme=o["file_scheme"], write_index=o["write_index"])
+                  object_encoding=oe, file_scheme=o["file_scheme"], write_index=o["write_index"])
         if o["row_group_offsets"] is not None:
             kw["row_group_offsets"] = o["row_group_offsets"]
         if o.get("partition_on"):
@@ -115,6 +153,10 @@ def build_written(case, root):
         fastparquet.write(path, df, **kw)
     finally:
         writer.MAX_PAGE_SIZE, writer.DATAPAGE_VERSION = old
+    if case.get("nomd"):
+        writer.update_file_custom_metadata(path, {"pandas": None})
+    if case.get("strip"):
+        apply_strip(path, case["strip"])
     return path, df
 
 
@@ -184,18 +226,32 @@ def gen_ropts(rng, pf):
     return ro
 
 
-def apply_strip(pf, strip):
-    """remove Statistics / null_count from the handle's metadata (rg = list of row-group numbers)"""
-    for k in strip["rgs"]:
-        if k >= len(pf.row_groups):
-            continue
-        for col in pf.row_groups[k].columns:
-            if strip["mode"] == "stats":
-                col.meta_data.statistics = None
-            elif col.meta_data.statistics is not None:
-                col.meta_data.statistics.null_count = None
-    pf._base_dtype = None
-    pf._dtypes()
+def apply_strip(path, strip):
+    """Rewrite the footer of a single-file dataset ON DISK without the Statistics struct ('stats') or without its
+    null_count field ('null_count') in the given row groups (both are optional in the format): the file as another
+    writer could have produced it.  Same footer rewrite as writer.update_file_custom_metadata."""
+    import struct
+    from fastparquet.cencoding import from_buffer
+    from fastparquet.writer import write_thrift
+    with open(path, "rb+") as f:
+        loc0 = f.seek(-8, 2)
+        size = int.from_bytes(f.read(4), "little")
+        loc = loc0 - size
+        f.seek(loc)
+        fmd = from_buffer(f.read(), "FileMetaData")
+        for k in strip["rgs"]:
+            if k >= len(fmd.row_groups):
+                continue
+            for col in fmd.row_groups[k].columns:
+                if strip["mode"] == "stats":
+                    col.meta_data.statistics = None
+                elif col.meta_data.statistics is not None:
+                    col.meta_data.statistics.null_count = None
+        f.seek(loc)
+        foot = write_thrift(f, fmd)
+        f.write(struct.pack(b"<I", foot))
+        f.write(b"PAR1")
+        f.truncate()
 
 
 # ---------------------------------------------------------------------------------------------
@@ -222,8 +278,6 @@ def examine(case, path, pq=None, ctx=None):
         pf = ParquetFile(path, pandas_nulls=pn)
     except Exception as e:        # noqa  (an unreadable foreign file is C03's concern)
         return "unopenable", [("%s: %s" % (type(e).__name__, str(e)[:100]))]
-    if case.get("strip"):
-        apply_strip(pf, case["strip"])
     cats_arg = ro["categories"]
     # ---------------- metadata-only answers, taken before any data is read ----------------
     pred, pred_err = None, None
@@ -344,7 +398,7 @@ def examine(case, path, pq=None, ctx=None):
     md = {c["name"]: c for c in pf.pandas_metadata["columns"]} if has_md else {}
     rgs = D.rgs_args(pf)
     fields = [(name, f) for name, f in pf.schema.root["children"].items() if getattr(f, "isflat", False) is False]
-    ccase = {"source": case["source"], "file": case.get("rel") or {"spec": case["spec"], "wopts": case["wopts"]}, "pn": pn,
+    ccase = {"source": case["source"], "file": case.get("rel") or {"spec": case["spec"], "wopts": case["wopts"], "extra": case.get("extra"), "nomd": case.get("nomd")}, "pn": pn,
              "ropts": ro, "strip": case.get("strip")}
     for i, (name, f) in enumerate(fields):
         ent = md.get(name)
@@ -361,7 +415,11 @@ def examine(case, path, pq=None, ctx=None):
                 ctx.count("skipped", "numpy_type text outside the model's table: %s" % nt)
                 continue
         as_cat = final_cats is not None and (name in final_cats or name in pcats)
-        m = D.res_from_sx(pq.call("predict", True, has_md, pn, D.se_args(f), D.md_args(ent), i, rgs, as_cat))
+        if pf.row_groups:
+            cs0 = pf.row_groups[0].columns
+            own = i < len(cs0) and ".".join(cs0[i].meta_data.path_in_schema) == name
+            ctx.count("position", "chunk i is the field's own" if own else "chunk i is ANOTHER column's or missing (nested schema)")
+        m = D.res_from_sx(pq.call("predict", [True, True, True], has_md, pn, D.se_args(f), D.md_args(ent), i, rgs, as_cat))
         ip = D.dt_of(pred[name])
         if ip[0] == "other":
             ctx.count("skipped", "dtype outside the model's universe: %s" % ip[1])
@@ -395,11 +453,12 @@ def written_dtype_check(case, orig, path, pn):
     (what C01 demands of the read; together with 'prediction = read' it makes a table change visible as a concrete input)"""
     from fastparquet import ParquetFile
     fails = []
-    if pn is not True or case.get("strip"):
+    if pn is not True or case.get("strip") or case.get("nomd"):
         return fails
     pf = ParquetFile(path)
+    extras = {x["name"] for x in case.get("extra") or []}
     for c in orig.columns:
-        if c not in pf.dtypes:
+        if c not in pf.dtypes or c in extras:
             continue
         want = F.canonical_dtype(orig[c].dtype)
         if want.startswith("datetime64") and case["wopts"]["times"] == "int96":
@@ -478,6 +537,7 @@ def run(ctx):
         ctx.count("opt.columns", "subset" if case["ropts"]["columns"] is not None else "all")
         ctx.count("opt.dtypes", bool(case["ropts"]["dtypes"]))
         ctx.count("opt.strip", (case.get("strip") or {}).get("mode"))
+        ctx.count("pandas metadata", "removed on disk" if case.get("nomd") else ("foreign" if case["source"] == "foreign" else "as written"))
         ctx.count("status", st)
         if orig is not None and st == "ok":
             fails = fails + written_dtype_check(case, orig, path, case["pn"])
@@ -513,9 +573,6 @@ def run(ctx):
             case = dict(src)
             case["ropts"] = gen_ropts(rng, pf0) if k else {"columns": None, "categories": None, "index": None, "dtypes": None, "invalid_categories": False}
             case["pn"] = (rng.random() < 0.5) if k else True
-            if src["source"] == "written" and rng.random() < 0.15 and len(pf0.row_groups):
-                nrg = len(pf0.row_groups)
-                case["strip"] = {"mode": rng.choice(["stats", "null_count"]), "rgs": sorted(rng.sample(range(nrg), rng.randint(1, nrg)))}
             one(case, path, orig)
     pq.close()
     ctx.extra["write_errors"] = werr
@@ -537,7 +594,8 @@ def replay(rep):
         if orig is not None and st == "ok":
             fails = fails + written_dtype_check(case, orig, path, case["pn"])
         print("dataset: %s; read options %s; pandas_nulls=%s; strip=%s" % (
-            case.get("rel") or ("written frame n=%d kinds=%s wopts=%s" % (case["spec"]["n"], [c["kind"] for c in case["spec"]["cols"]], case["wopts"])),
+            case.get("rel") or ("written frame n=%d kinds=%s extra=%s nomd=%s wopts=%s" % (case["spec"]["n"], [c["kind"] for c in case["spec"]["cols"]],
+                                                                                             [x["kind"] for x in case.get("extra") or []], case.get("nomd"), case["wopts"])),
             case["ropts"], case["pn"], case.get("strip")))
         if st != "ok":
             print("status:", st, fails if st == "unopenable" else "")
